@@ -474,7 +474,7 @@ def handleOp (d : DState) (p : Pending) (res : List String) : DState := Id.run d
   let implStr := " ".intercalate res
   let op := p.toks.headD ""
   let some (c, rest) := parseW d p.toks.tail | return d.diff "unparsable op" "" (" ".intercalate p.toks)
-  d := if ["add", "append", "del", "clear", "build", "prepare"].contains op then noteW d c else d
+  d := if ["add", "append", "del", "clear", "build", "prepare"].contains op then noteW { d with expectAfterUpgrade := none } c else d
   let s := d.view
   let cmp (d : DState) (model : String) : DState :=
     if model == implStr then d else d.diff s!"result of `{" ".intercalate (p.toks.take 6)}`" model implStr
@@ -508,7 +508,8 @@ def handleOp (d : DState) (p : Pending) (res : List String) : DState := Id.run d
     match Writer.prepareChangingDistance c m' s with
     | .ok s' =>
       d := cmp d "ok"
-      d := d.setInfo c.index { metric := m', dims := c.dims }
+      -- the forest is gone only when the metric really changes
+      if m' != c.metric then d := d.setInfo c.index { metric := m', dims := c.dims }
       return d.setView s'
     | .error e => return cmp d (errStr e)
   | "needbuild" => return cmp d s!"ok {boolStr (Writer.needBuild c s)}"
@@ -799,7 +800,9 @@ def handleCommit (d : DState) : DState := Id.run do
   if d.rawPending.size > 0 then
     let pairs := d.rawPending.toList
     d := { d with rawPending := #[] }
-    if d.expectAfterUpgrade.isSome && d.oldLayout.isNone then
+    -- a database loaded from raw pairs was built elsewhere: its bucket capacities are unknown
+    d := { d with infos := d.infos.map fun (i, info) => (i, { info with capHist := some none }) }
+    if d.expectAfterUpgrade.isSome && d.oldLayout == some [] then
       -- an old-layout database: opaque until the upgrade runs
       d := { d with oldLayout := some pairs, committed := [], txn := none }
     else
@@ -854,7 +857,7 @@ def handleRaw (d : DState) (toks res : List String) : DState := Id.run do
         -- every index of an upgraded database uses the cosine metric
         for (k, v) in st do
           match v with
-          | .metadata _ dims _ _ => d := d.setInfo k.index { metric := .cosine, dims }
+          | .metadata _ dims _ _ => d := d.setInfo k.index { metric := .cosine, dims, capHist := some none }
           | _ => pure ()
         -- the upgraded database must be the original one minus the version records (C17)
         match d.expectAfterUpgrade with
@@ -941,7 +944,7 @@ def step (d : DState) (line : String) : DState :=
     { d with txn := none, step := d.step + 1, resync := false, preBuild := none, past := [], infos := infos }
   | ["endcase"] => if d.caseFailures == 0 then d.emit s!"CASE {d.caseId} ok steps={d.step} builds={d.caseBuilds} splits={d.caseSplits} queries={d.caseQueries}" else d.emit s!"CASE {d.caseId} FAILED failures={d.caseFailures}"
   | ["expect-after-upgrade"] => { d with inExpect := true, dumpKV := #[] }
-  | ["endexpect"] => { d with inExpect := false, expectAfterUpgrade := some d.dumpKV.toList, dumpKV := #[] }
+  | ["endexpect"] => { d with inExpect := false, expectAfterUpgrade := some d.dumpKV.toList, dumpKV := #[], oldLayout := some [] }
   | "index" :: i :: m :: dm :: _ =>
     match parseNat? i, parseMetric? m, parseNat? dm with
     | some index, some metric, some dims => d.setInfo index { metric, dims }
